@@ -215,11 +215,12 @@ def check_module(run, rng, tier, variants, mname, values, classify, layer, model
                 expl = ("OK " + exp) if exp != "NONE" else "ENCFAIL"
                 got = ref if not ref.startswith("ENCFAIL") else "ENCFAIL"
                 alt = model_bytes.get(s + "std", [None] * len(values))[j]
-                if got != expl and alt is not None and alt != exp and got == (("OK " + alt) if alt != "NONE" else "ENCFAIL"):
-                    # where the faithful model and its standard reading differ (C02's refuted regions: semi-constrained
-                    # INTEGER, CHOICE index order) the C may be in either state (a `fix:` commit in /repo moves it to the
-                    # standard one before or after the shared model follows); which one is C02's statement, not C13's
-                    run.count("model_layer_uper_in_C02_refuted_region_matches_std")
+                if alt is not None and alt != exp:
+                    # the faithful model and its standard reading differ here (C02's refuted regions: semi-constrained
+                    # INTEGER, CHOICE index order).  /repo moves from one state to the other by `fix:` commits, one
+                    # deviation at a time, before the shared model follows; which state the C is in is C02's
+                    # statement.  C13 keeps the comparison across builds (above) and does not compare with the model.
+                    run.count("model_layer_uper_in_C02_refuted_region(no model comparison)")
                 elif got != expl:
                     fid = classify(j, s, "model-differs", groups)
                     if fid:
@@ -418,7 +419,9 @@ def main(tier):
         for tn, _ in m["defs"]:
             for k in range(5 if quick else 10):
                 lines.append("rfill %s %d %d" % (tn, rng.below(100000), rng.choice([8, 32, 64, 200])))
-        out = run_mod(run, m, lines, "C13-wide-rfill")
+        # asn_random_fill is only the value source here: a command it dies on (e.g. the assertion
+        # `range < intmax_max` of asn_random_between for INTEGER (0..9223372036854775807)) yields no value
+        out = run_mod_resume(run, m, lines, "C13-wide-rfill")
         values = []
         for l, o in zip(lines, out):
             f = o.split()
